@@ -553,8 +553,8 @@ fn find_any<'n>(n: &'n Node, attr: &str) -> Option<&'n (String, String, String)>
 }
 
 fn toks(v: &Value) -> String {
-    // the token "x254" stands for 254 letters
-    v.as_array().unwrap().iter().map(|x| match x.as_str().unwrap() { "x254" => "b".repeat(254), t => t.to_string() }).collect()
+    // the token "x254" stands for 254 letters, "x1023" for 1023
+    v.as_array().unwrap().iter().map(|x| match x.as_str().unwrap() { "x254" => "b".repeat(254), "x1023" => "c".repeat(1023), t => t.to_string() }).collect()
 }
 
 type R<T> = Result<T, (String, String)>;
@@ -663,6 +663,11 @@ fn check_written(p: &Parts, msg: &Msg, xml: &[u8], expect: &str, raw_expected: O
 
 fn run_msg(ctx: &Ctx, c: &Value, s: &mut Summary) -> R<()> {
     let p = parts_of(c);
+    if (p.focus == "tag" || p.focus == "class_name") && p.val.len() > 1024 {
+        // longer than the schemas' maxLength: not a protocol-valid value, nothing is asked of it
+        s.count("beyond_protocol_valid_length", 1);
+        return Ok(());
+    }
     let msg = match build(ctx, &p) {
         Ok(m) => m,
         Err(_) => {
